@@ -225,14 +225,22 @@ return TRUE;
 	return TRUE;
 }
 
+/* a CPIXEL has REALBYTES bytes: read exactly those (not a whole CARDBPP, which reaches one
+   byte beyond a 3-byte CPIXEL and, for the last pixel, beyond the buffer) */
+#define ReadCPixel CONCAT2E(ReadCPixel,HandleZRLETile)
+static CARDBPP ReadCPixel(const uint8_t* pointer) {
+	CARDBPP pix = 0;
+	memcpy(&pix, pointer, REALBYTES);
+	return pix;
+}
 #if REALBPP!=BPP && defined(UNCOMP) && UNCOMP!=0
 #if UNCOMP>0
-#define UncompressCPixel(pointer) ((*(CARDBPP*)pointer)>>UNCOMP)
+#define UncompressCPixel(pointer) (ReadCPixel(pointer)>>UNCOMP)
 #else
-#define UncompressCPixel(pointer) ((*(CARDBPP*)pointer)<<(-(UNCOMP)))
+#define UncompressCPixel(pointer) (ReadCPixel(pointer)<<(-(UNCOMP)))
 #endif
 #else
-#define UncompressCPixel(pointer) (*(CARDBPP*)pointer)
+#define UncompressCPixel(pointer) ReadCPixel(pointer)
 #endif
 
 static int HandleZRLETile(rfbClient* client,
@@ -270,11 +278,13 @@ static int HandleZRLETile(rfbClient* client,
 		{
 #if REALBPP!=BPP
 			int i,j;
+#endif
 
 			if(1+w*h*REALBYTES>buffer_length) {
-				rfbClientLog("expected %d bytes, got only %d (%dx%d)\n",1+w*h*REALBYTES,buffer_length,w,h);
+				rfbClientLog("expected %d bytes, got only %d (%dx%d)\n",1+w*h*REALBYTES,(int)buffer_length,w,h);
 				return -3;
 			}
+#if REALBPP!=BPP
 
 			for(j=y*client->width; j<(y+h)*client->width; j+=client->width)
 				for(i=x; i<x+w; i++,buffer+=REALBYTES)
@@ -286,11 +296,13 @@ static int HandleZRLETile(rfbClient* client,
 		}
 		else if( type == 1 ) /* solid */
 		{
-			CARDBPP color = UncompressCPixel(buffer);
+			CARDBPP color;
 
 			if(1+REALBYTES>buffer_length)
 				return -4;
-				
+
+			color = UncompressCPixel(buffer);
+
 			client->GotFillRect(client, x, y, w, h, color);
 
 			buffer+=REALBYTES;
@@ -314,7 +326,11 @@ static int HandleZRLETile(rfbClient* client,
 			/* read palettized pixels */
 			for(j=y*client->width; j<(y+h)*client->width; j+=client->width) {
 				for(i=x,shift=8-bpp; i<x+w; i++) {
-					((CARDBPP*)client->frameBuffer)[j+i] = palette[((*buffer)>>shift)&mask];
+					int index = ((*buffer)>>shift)&mask;
+					/* an index that is not in the palette (also: outside palette[]) */
+					if(index>=type)
+						return -12;
+					((CARDBPP*)client->frameBuffer)[j+i] = palette[index];
 					shift-=bpp;
 					if(shift<0) {
 						shift=8-bpp;
@@ -422,6 +438,7 @@ static int HandleZRLETile(rfbClient* client,
 #undef HandleZRLE
 #undef HandleZRLETile
 #undef UncompressCPixel
+#undef ReadCPixel
 
 #endif
 
